@@ -1,25 +1,26 @@
 #!/bin/bash
 # usage: seedeval.sh <seed-dir> <package-dir> <go-test-run-pattern> <test-scope e.g. ./ecdsa/...> -- <check ids...>
-# 1. confirms the seeded change in a scratch worktree (demo passes without, fails with; existing tests of the scope pass with)
-# 2. applies it to /repo, runs the named checks (quick tier), and restores /repo.
+# 1. confirms the seeded change in a scratch worktree of /repo (demo passes without, fails with; existing tests of the scope pass with)
+# 2. runs the named checks (quick tier) from a scratch worktree of /verif (committed state) against that patched copy
+#    (VERIF_REPO), so that neither /repo nor /verif is disturbed while other jobs use them. (Equivalent to applying the patch
+#    to /repo, running ./check and restoring /repo.)
 set -u
 export GOFLAGS=-mod=mod GOPROXY=off GOSUMDB=off GOTOOLCHAIN=local
-SEED=$1; PKG=$2; PAT=$3; SCOPE=$4; shift 5
+SEED=$(cd "$1" && pwd); PKG=$2; PAT=$3; SCOPE=$4; shift 5
 WT=/tmp/wt/eval-$$
+VWT=/tmp/vf/seedeval-$$
 git -C /repo worktree add -q --detach $WT HEAD || exit 2
-trap 'git -C /repo worktree remove --force $WT; git -C /repo checkout -q -- . ' EXIT
-cp $SEED/demo_test.go $WT/$PKG/zz_seed_demo_test.go
-( cd $WT && timeout 900 go test -vet=off -count=1 -run "$PAT" ./$PKG/ > /tmp/wt/eval-$$.a.log 2>&1 ); A=$?
+git -C /verif worktree add -q --detach $VWT HEAD || exit 2
+trap 'git -C /repo worktree remove --force $WT; git -C /verif worktree remove --force $VWT; rm -f /tmp/wt/eval-$$.*' EXIT
+for f in $SEED/*demo*test.go; do cp $f $WT/$PKG/zz_$(basename $f); done
+( cd $WT && timeout 1200 go test -vet=off -count=1 -run "$PAT" ./$PKG/ > /tmp/wt/eval-$$.a.log 2>&1 ); A=$?
 ( cd $WT && git apply $SEED/patch.diff ) || { echo "patch does not apply"; exit 2; }
-( cd $WT && timeout 900 go test -vet=off -count=1 -run "$PAT" ./$PKG/ > /tmp/wt/eval-$$.b.log 2>&1 ); B=$?
-rm $WT/$PKG/zz_seed_demo_test.go
-( cd $WT && timeout 1500 go test -vet=off -count=1 $SCOPE > /tmp/wt/eval-$$.c.log 2>&1 ); C=$?
+( cd $WT && timeout 1200 go test -vet=off -count=1 -run "$PAT" ./$PKG/ > /tmp/wt/eval-$$.b.log 2>&1 ); B=$?
+rm -f $WT/$PKG/zz_*demo*test.go
+( cd $WT && timeout 1800 go test -vet=off -count=1 $SCOPE > /tmp/wt/eval-$$.c.log 2>&1 ); C=$?
 echo "CONFIRM demo-without-patch=$A (want 0) demo-with-patch=$B (want !=0) existing-tests-with-patch=$C (want 0)"
 [ $C -ne 0 ] && tail -n 5 /tmp/wt/eval-$$.c.log
-git -C /repo apply $SEED/patch.diff || { echo "patch does not apply to /repo"; exit 2; }
 for id in "$@"; do
-  ( cd /verif && timeout 1800 ./check $id --tier quick > /tmp/wt/eval-$$.$id.log 2>&1 ); R=$?
+  ( cd $VWT && VERIF_REPO=$WT timeout 2400 ./check $id --tier quick > /tmp/wt/eval-$$.$id.log 2>&1 ); R=$?
   echo "CHECK $id exit=$R"; grep -E "^VIOLATION|^  what|^INCONCLUSIVE|KNOWN-FINDING" /tmp/wt/eval-$$.$id.log | cut -c1-400 | head -n 6
 done
-git -C /repo checkout -q -- .
-rm -f /tmp/wt/eval-$$.*.log
